@@ -27,6 +27,7 @@ type escaperEval struct {
 	rvar  types.Object
 	r     rune
 	sinks []escSink
+	bools map[types.Object]bool // assumed values of boolean parameters (the context flag of an escaper)
 }
 
 // tri evaluates a condition for the concrete rune: 1 true, 0 false, -1 unknown.
@@ -39,6 +40,13 @@ func (e *escaperEval) tri(x ast.Expr) int {
 		return 0
 	}
 	switch t := x.(type) {
+	case *ast.Ident:
+		if v, ok := e.bools[e.info.ObjectOf(t)]; ok {
+			if v {
+				return 1
+			}
+			return 0
+		}
 	case *ast.UnaryExpr:
 		if t.Op == token.NOT {
 			switch e.tri(t.X) {
@@ -239,6 +247,11 @@ func (e *escaperEval) sink(x ast.Expr) {
 // escaperSinks finds the loop over the runes of the string parameter of an
 // escaper and evaluates its body for one rune.
 func (c *Ctx) escaperSinks(pkg *packages.Package, fd *ast.FuncDecl, r rune) ([]escSink, bool) {
+	return c.escaperSinksCtx(pkg, fd, r, nil)
+}
+
+// escaperSinksCtx evaluates the escaper with its boolean parameters fixed.
+func (c *Ctx) escaperSinksCtx(pkg *packages.Package, fd *ast.FuncDecl, r rune, bools map[types.Object]bool) ([]escSink, bool) {
 	info := pkg.TypesInfo
 	var loop *ast.RangeStmt
 	ast.Inspect(fd.Body, func(x ast.Node) bool {
@@ -256,7 +269,7 @@ func (c *Ctx) escaperSinks(pkg *packages.Package, fd *ast.FuncDecl, r rune) ([]e
 	if !ok {
 		return nil, false
 	}
-	ev := &escaperEval{c: c, info: info, rvar: info.Defs[v], r: r}
+	ev := &escaperEval{c: c, info: info, rvar: info.Defs[v], r: r, bools: bools}
 	ev.run(loop.Body.List)
 	return ev.sinks, true
 }
